@@ -79,8 +79,10 @@ Definition set_feeds (s : shared) (n : nat) := {| wbio := wbio s; deque := deque
      f_skiplock : with meta/fixes/C08_send_lock_only_if_pending.diff the send lock is taken only when the outgoing BIO
                   is not empty;
      f_close_flush : with meta/fixes/C09_close_notify_after_failed_unwrap.diff aclose() still sends what unwrap() left in
-                  the outgoing BIO when unwrap() failed with an SSLError (used by Conc/TlsEof.v only). *)
-Record flags := { f_recheck : bool; f_skiplock : bool; f_close_flush : bool }.
+                  the outgoing BIO when unwrap() failed with an SSLError (used by Conc/TlsEof.v only);
+     f_lazyread : with meta/fixes/C08_read_result_without_checkpoint.diff a successful ssl_object.read() returns at once:
+                  no flush point (no checkpoint) between the read and the return, whatever is pending in the outgoing BIO. *)
+Record flags := { f_recheck : bool; f_skiplock : bool; f_close_flush : bool; f_lazyread : bool }.
 
 Section Flags.
 Variable fl : flags.
@@ -97,6 +99,12 @@ Definition flush_pc (s : shared) (k : cont) : pc :=
   | KRead n => if send_lock_only_if_pending && wbio_empty s then PRecvWait n else PFlush k
   | KRet v => if send_lock_only_if_pending && wbio_empty s then PEnd (ROk v) else PFlush k
   end.
+
+(* where a task goes when its SSL method has returned v: the flush point of the success branch -- except, with
+   meta/fixes/C08_read_result_without_checkpoint.diff, after a read: decrypted bytes cannot be read again, so the call
+   returns without a checkpoint and leaves the outgoing BIO to the task that filled it / to the next operation. *)
+Definition done_pc (m : meth) (s : shared) (v : nat) : pc :=
+  if f_lazyread fl && meth_eqb m MRead then PEnd (ROk v) else flush_pc s (KRet v).
 
 (* entering the method: __write_all_to_ssl_object with an empty backlog returns without touching the SSL object *)
 Definition pcall (m : meth) (s : shared) : pc :=
@@ -161,7 +169,7 @@ Definition step (m : meth) (bufsize : nat) (s : shared) (p : pc) (l : lab) : opt
                 | [] => Some (s2, flush_pc s2 (KRet 0), [])
                 | _ => Some (s2, PCall, [])
                 end
-            | _ => Some (s1, flush_pc s1 (KRet v), [])
+            | _ => Some (s1, done_pc m s1 v, [])
             end
         | SWantRead => Some (s1, flush_pc s1 (KRead (feeds s1)), [])
         | SWantWrite => Some (s1, PFlush KLoop, [])
